@@ -457,3 +457,18 @@ package stringlib
 //@   ensures fragNext && (format[i] == 'd' || format[i] == 'i') ==> typeis(fragOut_arg, int64)
 //@   ensures fragNext && (format[i] == 'u' || format[i] == 'i') ==> outFormat[i] == 'd'
 //@   ensures fragNext && (format[i] == 'x' || format[i] == 'X' || format[i] == 'o' || format[i] == 'd') ==> outFormat[i] == old(outFormat[i])
+
+// ---------------------------------------------------------------------------
+// C15 / C04: string.match consults the matcher for every start position
+// ---------------------------------------------------------------------------
+// string.match(s, p, init): the matcher is asked for every start position in
+// [1, #s+1] (an empty match at the end of the subject is a match); only a start
+// position beyond #s+1 yields nil without asking, and the matcher is never given
+// a position outside [0, #s] (its precondition, proved at the call).
+//@ func match
+//@   prop C15 C04
+//@   arith int
+//@   requires t != nil && t.Runtime != nil && c != nil && c.GoFunction != nil && c.next != nil && 0 <= c.nArgs && c.nArgs <= len(c.args) && len(c.args) == 3
+//@   modifies everything()
+//@   exits ContextTerminationError
+//@   assert_before_call Push1: si > len(s)   // nil without asking the matcher only for a start position beyond #s+1
